@@ -18,8 +18,8 @@ func checkC07(r *Run) {
 	r3 := r.Rule("R-C07-3", "look-up consumes the entry on every path; serve hands over with a non-blocking send")
 	r4 := r.Rule("R-C07-4", "success (nil error) only through the request's own waiter")
 	r5 := r.Rule("R-C07-5", "SUBACK shape: count equality dominates the copy-back; ErrInvalidSubAck otherwise; same index both sides")
-	r1.Floor(5)
-	r4.Floor(8)
+	r1.Floor(3)
+	r4.Floor(5)
 	var sites []*reqSite
 	for _, s := range c.sitesOrLost(r1) {
 		if s.Kind == "publish" || s.Kind == "pubrel" || s.Kind == "subscribe" || s.Kind == "unsubscribe" {
@@ -47,7 +47,7 @@ func (c *Ctx) ruleSubAckShape(rr *RuleRep) {
 		rr.Lost("subscribeImpl", "subscribe implementation not found")
 		return
 	}
-	rr.Floor(3)
+	rr.Floor(2)
 	var subs ssa.Value
 	for _, p := range f.Params {
 		if sl, ok := p.Type().Underlying().(*types.Slice); ok && typeName(sl.Elem()) == "Subscription" {
